@@ -373,6 +373,22 @@ def _c11_check(store, step, op, memo):
 J.setdefault("C11", []).append(("history", _history_hook(_c11_check)))
 
 
+@judge_for("C11", "util")
+def j_c11_util(inp):
+    from scoda.misc import util
+    kind, a = inp
+    if kind == "durs":
+        vals = util.get_note_durations(*a)
+    elif kind == "steps":
+        vals = util.get_default_step_sizes(upper_bound_shift=a[0], lower_bound_shift=a[1])
+    elif kind == "defaults":
+        vals = util.get_default_note_values() + util.get_default_step_sizes()
+    else:
+        return None
+    bad = [x for x in vals if type(x) is not int]
+    return [f"tick grid value {bad[0]!r} of type {type(bad[0]).__name__} (these values become message times in quantise)"] if bad else []
+
+
 @judge_for("C11", "tok_roundtrip")
 def j_c11_tok(inp):
     cfg, tracks = inp[0], inp[1]
@@ -846,7 +862,10 @@ def j_c17(inp):
         ks = [] if iks else [(m[2], m[10]) + (() if ich else (m[1],)) for m in ms if m[0] == "KEY_SIGNATURE"]
         return sorted(notes, key=str), sorted(sig), sorted(ks)
     same = canon(a) == canon(b)
-    if same and not r1:
+    # the channel flag is only claimed for a uniform relabelling of a single-channel sequence (property text): with
+    # several channels the interleaving order of simultaneous events depends on the channels themselves
+    single = len({m[1] for m in a}) <= 1 and len({m[1] for m in b}) <= 1
+    if same and not r1 and (single or not ich):
         v.append(f"musically equal sequences compare unequal (perturbation {kind}, flags {fl})")
     if not same and r1 and kind not in ("chan_all", "channel"):
         v.append(f"sequences differing by {kind} compare equal with flags {fl}")
